@@ -261,7 +261,7 @@ def run(ctx):
     # ================================================================ bisect / brentq
     # "underflow" stream: function values so small that products of two of them underflow to (-)0.0 (the sign tests
     # of the pinned code were products: finding repaired by /repo commit 8b50f2a; reported again if it returns)
-    streams = [("main", 900 if thorough else 260), ("underflow", 120 if thorough else 40)]
+    streams = [("main", 4000 if thorough else 260), ("underflow", 500 if thorough else 40)]
     for solver_name in ("bisect", "brentq"):
         solver = getattr(RF, solver_name)
         cases, meta = [], []
@@ -371,7 +371,7 @@ def run(ctx):
 
     for kind in ("newton", "halley", "secant"):
         cases, meta = [], []
-        for _ in range(700 if thorough else 220):
+        for _ in range(3000 if thorough else 220):
             mode = rng.choice(["basin", "basin", "basin", "random", "flat", "exactroot", "fewiter"])
             s = rng.choice([1.0, -1.0]) * pow2(rng, -2, 2)
             r1 = rng.randrange(-48, 49) / 8.0
@@ -449,7 +449,7 @@ def run(ctx):
     # ================================================================ brent_max
     sqrt_eps = float(np.sqrt(2.2e-16)); golden = float(0.5 * (3.0 - np.sqrt(5.0)))
     cases, meta = [], []
-    for _ in range(900 if thorough else 300):
+    for _ in range(4000 if thorough else 300):
         mode = rng.choice(["interior", "interior", "interior", "boundary", "linear", "quartic", "mixed", "bump", "badargs"])
         fam = 5
         m = rng.randrange(-80, 81) / 16.0
@@ -511,7 +511,10 @@ def run(ctx):
             else:
                 xstar = min(max(Fraction(ps[0]), Fraction(a)), Fraction(b))
             bound = Fraction(xtol) + 2 * Fraction(sqrt_eps) * abs(Fraction(xf))
-            if abs(Fraction(xf) - xstar) > bound:
+            # accepted as well: xf attains the maximal value of the objective as given (floats can be flat around the
+            # maximiser: 1 + d*d == 1 for |d| < 1e-8), i.e. it IS a maximiser of the function the routine was called with
+            attains = fval >= F(float(xstar), *ps)
+            if abs(Fraction(xf) - xstar) > bound and not attains:
                 ctx.fail("brent_max_accuracy", "status 0 but |xf - maximiser| > xtol + 2*sqrt_eps*|xf|", inp, out,
                          {"maximiser": float(xstar), "bound": float(bound)})
     ok = ("fun c => let '(fam, ps, a, b, xtol, mi, e) := c in "
@@ -534,7 +537,8 @@ def run(ctx):
                 s += d[i] * A[i, j] * d[j]
         return k - s
 
-    for _ in range(160 if thorough else 50):
+    nm_count = 800 if thorough else 50
+    for case_no in range(nm_count + 2):
         n = rng.randrange(1, 4)
         L = np.array([[rng.randrange(-4, 5) / 4.0 if j < i else (rng.randrange(2, 9) / 4.0 if j == i else 0.0)
                        for j in range(n)] for i in range(n)])
@@ -553,6 +557,13 @@ def run(ctx):
                 lo = np.minimum(lo, x0); hi = np.maximum(hi, x0 * 1.0)
             bounds = np.column_stack([lo, hi])
         max_iter = rng.choice([1000, 1000, 3, 10]) if mode != "fewiter" else rng.choice([0, 1, 2, 5])
+        if case_no == nm_count:      # the recorded witness of finding D12, verbatim
+            n = 1; A = np.array([[0.5625]]); c = np.array([0.0]); k0 = -1.0; x0 = np.array([-2.5])
+            mode = "free"; bounds = np.array([[], []]).T; max_iter = 1000
+        if case_no == nm_count + 1:  # the recorded witness of finding D18 (collapse onto inactive bounds), verbatim
+            n = 3; A = np.array([[0.5625, 0.5625, 0.0], [0.5625, 0.8125, 0.5], [0.0, 0.5, 1.5625]])
+            c = np.array([-2.75, -3.5, -0.75]); k0 = -2.0; x0 = np.array([-2.5, -1.0, 1.75])
+            mode = "inactive"; bounds = np.array([[-3.75, -1.35], [-4.5, 0.06], [-1.75, 2.855]]); max_iter = 1000
         res = nelder_mead(quad, x0.copy(), bounds=bounds, args=(A, c, k0), max_iter=max_iter)
         x = np.array(res.x, dtype=float); fun = float(res.fun)
         inp = {"solver": "nelder_mead", "A": A.tolist(), "c": c.tolist(), "k": k0, "x0": x0.tolist(),
@@ -581,18 +592,27 @@ def run(ctx):
         if bool(res.success) != (int(res.nit) < max_iter) and not (int(res.nit) == max_iter and bool(res.success)):
             pass
         if res.success and mode in ("free", "inactive") and max_iter >= 1000:
+            # nelder_mead stops on a function-value spread < tol_f = 1e-10; it carries no accuracy guarantee, so "equal to the
+            # maximiser" is checked as: value gap f* - f(x) <= 1e-6 and |x - c|_inf <= 1e-3 (stated, fixed tolerances)
             err = max(abs(float(x[i]) - float(c[i])) for i in range(n))
-            if err > 1e-4:
+            gap = Fraction(k0) - qexact(x)
+            if err > 1e-3 or gap > Fraction(1, 10**6):
                 fs = np.array(res.final_simplex, dtype=float)
                 vals = [qexact(v) for v in fs]
                 diam = max(float(np.max(np.abs(u - v))) for u in fs for v in fs)
-                if max(vals) - min(vals) < Fraction(1e-10) and diam > 1e-4:
+                if max(vals) - min(vals) < Fraction(1e-10) and diam > 1e-3:
                     # all vertex values tie on a large simplex: term_f fires although the simplex has not contracted
                     ctx.fail("nelder_mead_success_on_value_tie",
-                             "success=True at a non-maximiser: all vertex values tie (term_f) on a simplex of diameter > 1e-4",
+                             "success=True at a non-maximiser: all vertex values tie (term_f) on a simplex of diameter > 1e-3",
                              dict(inp, value_tie=True), impl, c.tolist())
+                elif bounds.shape[0] and any(min(abs(x[i] - bounds[i, 0]), abs(bounds[i, 1] - x[i])) <= 1e-2 * (bounds[i, 1] - bounds[i, 0])
+                                             for i in range(n)):
+                    # the +inf penalty made the simplex collapse onto a bound face although the maximiser is strictly inside
+                    ctx.fail("nelder_mead_bounds_collapse",
+                             "success=True far from the interior maximiser: simplex collapsed onto a face of (inactive) bounds",
+                             dict(inp, bounds_collapse=True), impl, c.tolist())
                 else:
-                    ctx.fail("nelder_mead_maximiser", "success=True but result is not the maximiser of the concave quadratic (1e-4)",
+                    ctx.fail("nelder_mead_maximiser", "success=True but result is not the maximiser of the concave quadratic (value gap 1e-6, distance 1e-3)",
                              inp, impl, c.tolist())
 
 
@@ -623,6 +643,23 @@ def replay(data):
         elif s == "brent_max":
             F, J = funcs(inp["family"]); ps = tuple(inp["params"])
             print("implementation now:", brent_max(J, inp["a"], inp["b"], args=ps, xtol=inp["xtol"], maxiter=inp["maxiter"]))
+        elif s == "nelder_mead":
+            from numba import njit
+            from quantecon.optimize.nelder_mead import nelder_mead
+
+            @njit
+            def quad(x, A, c, k):
+                d = x - c
+                t = 0.0
+                for i in range(d.size):
+                    for j in range(d.size):
+                        t += d[i] * A[i, j] * d[j]
+                return k - t
+            b = np.array(inp["bounds"], dtype=float) if inp["bounds"] else np.array([[], []]).T
+            res = nelder_mead(quad, np.array(inp["x0"], dtype=float), bounds=b,
+                              args=(np.array(inp["A"]), np.array(inp["c"]), float(inp["k"])), max_iter=inp["max_iter"])
+            print("implementation now: x=%s fun=%r success=%s nit=%d; maximiser of the quadratic: %s" %
+                  (res.x.tolist(), float(res.fun), bool(res.success), int(res.nit), inp["c"]))
     except Exception as e:
         print("implementation raised:", repr(e))
     return 0
